@@ -36,12 +36,17 @@ def run_scenarios(scenarios, construct_errors=None):
     """Execute scenarios; returns (traces, kept_scenarios).  Scenarios whose explainer cannot be
     constructed are reported through construct_errors (a list) and left out."""
     traces, kept = [], []
+    not_observed = [0]
+    run_scenarios.not_observed = not_observed
     for sc in scenarios:
         try:
             tr, extra = G.run_scenario(sc)
         except G.ConstructError as e:
             if construct_errors is not None:
                 construct_errors.append((sc, str(e)))
+            continue
+        except G.NotObservable:
+            not_observed[0] += 1
             continue
         except Unrepresentable:
             continue        # a logged number has a denominator divisible by P: the scenario is skipped, never failed
@@ -61,6 +66,10 @@ def validate(ctx, scenarios, wanted, label, workers=8, construct_violation=False
                               "constructor raised for scenario [%s]: %s" % (sc.key(), msg), {"scenario": sc.to_json()})
         else:
             ctx.skip("scenarios whose explainer could not be constructed (judged by C15)", len(cerr))
+    if run_scenarios.not_observed[0]:
+        ctx.skip("scenarios whose abstract state could not be projected (anchored attributes missing)", run_scenarios.not_observed[0])
+    if not traces:
+        return traces, kept, []
     fails, res = tracecheck.validate("Trace_IncExplainer", traces, lambda t: len(t["calls"]),
                                      tag=ctx.pid.lower() + "tr", workers=workers)
     ncalls = sum(len(t["calls"]) for t in traces)
@@ -159,7 +168,10 @@ def callback_counts(sc):
     """number of callback invocations of every call of the fault-free run"""
     sc2 = copy.copy(sc)
     sc2.faults = {}
-    tr, _ = G.run_scenario(sc2)
+    try:
+        tr, _ = G.run_scenario(sc2)
+    except (G.NotObservable, G.ConstructError, Unrepresentable):
+        return [], None
     return [len([o for o in c["order"] if o in ("m", "l", "i", "s")]) for c in tr["calls"]], tr
 
 
@@ -169,8 +181,12 @@ def twin_float(ctx, sc, clause_prefix, tol_scale=64.0):
     sce.numeric = "fraction"
     scf = copy.copy(sc)
     scf.numeric = "float"
-    _, xe = G.run_scenario(sce, keep_raw=True)
-    _, xf = G.run_scenario(scf, keep_raw=True)
+    try:
+        _, xe = G.run_scenario(sce, keep_raw=True)
+        _, xf = G.run_scenario(scf, keep_raw=True)
+    except (G.NotObservable, G.ConstructError, Unrepresentable):
+        ctx.skip("float twin runs whose state could not be projected / constructed")
+        return [], {"raws": [], "env": None}, {"raws": [], "env": None}
     probs = []
     eps = 2.0 ** -52
     for i, (re_, rf) in enumerate(zip(xe["raws"], xf["raws"])):
